@@ -333,14 +333,23 @@ class Inliner:
             return None
         return to_expr(h.body, {})
 
-    def fresh(self, h: Helper, mp):
+    def fresh(self, h: Helper, mp, hoist=True):
         """rename the helper's own locals; parameters that the helper re-assigns become locals initialised from the argument"""
         self.counter += 1
         suffix = f"__{h.name.strip('_')}{self.counter}"
         rename = {n: n + suffix for n in h.assigned}
         pre = []
         mp2 = {}
+        uses = {}
+        for n in ast.walk(ast.Module(body=list(h.body), type_ignores=[])):
+            if isinstance(n, ast.Name) and isinstance(n.ctx, ast.Load):
+                uses[n.id] = uses.get(n.id, 0) + 1
         for p, a in mp.items():
+            if p not in h.assigned and hoist and uses.get(p, 0) > 1 and any(isinstance(x, ast.Call) for x in ast.walk(a)):
+                # an argument that is itself a call and is used more than once: evaluated once, into a local
+                rename[p] = p + suffix
+                pre.append(ast.Assign(targets=[ast.Name(id=rename[p], ctx=ast.Store())], value=copy.deepcopy(a), lineno=h.node.lineno))
+                continue
             if p in h.assigned:
                 pre.append(ast.Assign(targets=[ast.Name(id=rename[p], ctx=ast.Store())], value=copy.deepcopy(a), lineno=h.node.lineno))
             else:
@@ -557,6 +566,12 @@ class _Rewriter(ast.NodeTransformer):
                     parts.append(("loop", st.target, st.iter, cond, inner.value.value))
                 else:
                     return None
+            elif isinstance(st, ast.For) and not st.orelse and len(h.body) == 1:
+                # for T in IT: <statements> ; [if C:] yield E      (one yield, last in the body, possibly under trailing ifs)
+                n_yield = sum(1 for n in ast.walk(st) if isinstance(n, (ast.Yield, ast.YieldFrom)))
+                if n_yield != 1 or any(isinstance(n, (ast.Return, ast.FunctionDef, ast.Lambda)) for n in ast.walk(st)):
+                    return None
+                parts.append(("loopN", st))
             else:
                 return None
         if not parts:
@@ -574,6 +589,29 @@ class _Rewriter(ast.NodeTransformer):
                 out.extend(body)
             elif p[0] == "from":
                 out.append(ast.For(target=copy.deepcopy(loop.target), iter=sub.visit(copy.deepcopy(p[1])), body=body, orelse=[], lineno=loop.lineno))
+            elif p[0] == "loopN":
+                g = sub.visit(copy.deepcopy(p[1]))
+
+                def place(stmts):
+                    """replace the (single, trailing) yield by `target = E ; body`"""
+                    last = stmts[-1]
+                    if isinstance(last, ast.Expr) and isinstance(last.value, ast.Yield) and last.value.value is not None:
+                        if any(isinstance(n, (ast.Yield, ast.YieldFrom)) for s_ in stmts[:-1] for n in ast.walk(s_)):
+                            return None
+                        return stmts[:-1] + [ast.Assign(targets=[copy.deepcopy(loop.target)], value=last.value.value, lineno=loop.lineno)] + body
+                    if isinstance(last, ast.If) and not last.orelse and not any(isinstance(n, (ast.Yield, ast.YieldFrom)) for s_ in stmts[:-1] for n in ast.walk(s_)):
+                        inner = place(last.body)
+                        if inner is None:
+                            return None
+                        last.body = inner
+                        return stmts
+                    return None
+
+                nb = place(g.body)
+                if nb is None:
+                    return None
+                g.body = nb
+                out.append(g)
             else:
                 _, tgt, it, cond, val = p
                 inner = [ast.Assign(targets=[copy.deepcopy(loop.target)], value=sub.visit(copy.deepcopy(val)), lineno=loop.lineno)] + body
@@ -609,13 +647,42 @@ def propagate_new_constants(trees: List[ast.AST], pinned_globals) -> bool:
     """module-level `NAME = <literal>` introduced after the pinned tree (not in pinned_globals) is substituted where it is used in the same
     module (a refactoring that names a magic number / string)"""
     changed = False
+    classes = {n.name for t in trees for n in t.body if isinstance(n, ast.ClassDef)}
     for t in trees:
         consts = {}
         stores = {}
+        bound = {n.name for n in t.body if isinstance(n, (ast.FunctionDef, ast.ClassDef))}
+        for n in t.body:
+            if isinstance(n, ast.ImportFrom):
+                bound.update(a.asname or a.name for a in n.names)
+
+        def constlike(e, depth=0) -> bool:
+            """an immutable value spelled out of literals, enum members, names of functions / classes and constructor calls on those"""
+            if depth > 4:
+                return False
+            if isinstance(e, ast.Constant):
+                return True
+            if isinstance(e, ast.Name):
+                return e.id in bound
+            if isinstance(e, ast.Attribute) and isinstance(e.value, ast.Name):
+                return e.value.id in classes and e.value.id in bound
+            if isinstance(e, (ast.Tuple, ast.List, ast.Set)):
+                return all(constlike(x, depth + 1) for x in e.elts)
+            if isinstance(e, ast.Dict):
+                return all(k is not None and constlike(k, depth + 1) and constlike(v_, depth + 1) for k, v_ in zip(e.keys, e.values))
+            if isinstance(e, ast.Call) and isinstance(e.func, ast.Name) and (e.func.id in classes and e.func.id in bound or e.func.id in ("timedelta", "datetime", "frozenset", "tuple")):
+                return all(constlike(a, depth + 1) for a in e.args) and all(k.arg is not None and constlike(k.value, depth + 1) for k in e.keywords)
+            return False
+
         for st in t.body:
+            if isinstance(st, ast.AnnAssign) and isinstance(st.target, ast.Name) and st.value is not None:
+                st = ast.copy_location(ast.Assign(targets=[st.target], value=st.value), st)
             if isinstance(st, ast.Assign) and len(st.targets) == 1 and isinstance(st.targets[0], ast.Name):
                 stores[st.targets[0].id] = stores.get(st.targets[0].id, 0) + 1
                 v = st.value
+                if isinstance(v, (ast.Dict, ast.Call, ast.Attribute)) and constlike(v) and not (isinstance(v, ast.Dict) and not v.keys):
+                    consts[st.targets[0].id] = v
+                    continue
                 inner = v.args[0] if isinstance(v, ast.Call) and isinstance(v.func, ast.Name) and v.func.id in ("frozenset", "set", "tuple", "list") and len(v.args) == 1 and not v.keywords else v
                 if isinstance(v, ast.Constant) and isinstance(v.value, (int, float, str)) and not isinstance(v.value, bool):
                     consts[st.targets[0].id] = v
@@ -635,14 +702,66 @@ def propagate_new_constants(trees: List[ast.AST], pinned_globals) -> bool:
     return changed
 
 
+def unwrap_forwarders(trees: List[ast.AST]) -> bool:
+    """a pinned method whose whole body forwards its own parameters to a module-level function of the same name (the body was moved
+    out of the class, the method kept as a wrapper): the method gets the moved body back"""
+    modfuncs: Dict[str, list] = {}
+    for t in trees:
+        for node in t.body:
+            if isinstance(node, ast.FunctionDef):
+                modfuncs.setdefault(node.name, []).append(node)
+    changed = False
+    for t in trees:
+        for cls in [c for c in t.body if isinstance(c, ast.ClassDef)]:
+            for m in [x for x in cls.body if isinstance(x, ast.FunctionDef)]:
+                body = _strip_doc(m.body)
+                if len(body) != 1 or not isinstance(body[0], (ast.Return, ast.Expr)) or not isinstance(body[0].value, ast.Call):
+                    continue
+                call = body[0].value
+                if not (isinstance(call.func, ast.Name) and call.func.id == m.name and len(modfuncs.get(m.name, [])) == 1):
+                    continue
+                f = modfuncs[m.name][0]
+                h = Helper(f, None, "function")
+                if not h.ok_sig or h.has_nested or h.is_gen or m.decorator_list != [] and [ast.unparse(d) for d in m.decorator_list] != ["staticmethod"]:
+                    continue
+                own = {a.arg for a in m.args.args}
+                if not all(isinstance(a, ast.Name) and a.id in own for a in call.args) or any(not isinstance(k.value, ast.Name) or k.value.id not in own for k in call.keywords):
+                    continue
+                if any(isinstance(n, ast.Call) and _call_name(n) == f.name for n in ast.walk(ast.Module(body=h.body, type_ignores=[]))):
+                    continue  # recursive
+                inl = Inliner.__new__(Inliner)
+                inl.counter = 0
+                mp = Inliner.bind(inl, h, call, None)
+                if mp is None:
+                    continue
+                rename = {n: n for n in h.assigned}
+                if set(h.assigned) & (own - {v.id for v in mp.values() if isinstance(v, ast.Name)}):
+                    continue
+                pre = [ast.Assign(targets=[ast.Name(id=p_, ctx=ast.Store())], value=copy.deepcopy(a), lineno=m.lineno) for p_, a in mp.items() if not (isinstance(a, ast.Name) and a.id == p_)]
+                new_body = pre + [copy.deepcopy(st) for st in h.body]
+                if isinstance(body[0], ast.Expr) and any(isinstance(n, ast.Return) and n.value is not None for st in new_body for n in ast.walk(st)):
+                    continue
+                m.body = new_body
+                ast.fix_missing_locations(m)
+                changed = True
+    return changed
+
+
 def inline_new_helpers(trees: List[ast.AST]) -> bool:
     from .anchors import PINNED_GLOBALS
 
     c = propagate_new_constants(trees, PINNED_GLOBALS)
+    c = unwrap_forwarders(trees) or c
     inl = Inliner(trees)
     if not inl.helpers and not inl.by_class:
-        return c
-    return inl.run() or c
+        from .records import dissolve_records
+
+        return dissolve_records(trees) or c
+    from .records import dissolve_records
+
+    r = inl.run()
+    d = dissolve_records(trees)
+    return r or c or d
     inl = Inliner(trees)
     if not inl.helpers and not inl.by_class:
         return False
